@@ -26,18 +26,33 @@ var c01RestSeq atomic.Int64
 
 func TestVerifC01Rest(t *testing.T) {
 	spec := verifc01.SiteSpec{Site: "rest", NoCtx: true,
-		Good: []string{"h0", "h200", "h204", "h301", "h404", "h429", "h499"},
-		Bad:  []string{"h500", "h501", "h502", "h503", "h504", "h599"}}
+		Good: []string{"h0", "h200", "h204", "h301", "h399", "h400", "h404", "h429", "h498", "h499"},
+		Bad:  []string{"h500", "h501", "h502", "h503", "h504", "h599", "h600", "h999"}}
 	metrics := stat.NewMetrics("c01")
-	verifc01.Run(t, verifc01.Gen([]verifc01.SiteSpec{spec}, false), func(named bool) verifc01.Env {
-		mw := BreakerHandler(http.MethodGet, fmt.Sprintf("/c01/%d", c01RestSeq.Add(1)), metrics)
-		brk := breaker.VerifC01FindBreaker(*(*unsafe.Pointer)(unsafe.Pointer(&mw)), 4)
-		if brk == nil {
-			panic("verif c01: breaker not found in the closure of BreakerHandler")
+	// one BreakerHandler middleware per name (several routes): each has a breaker of its own, created when the
+	// middleware is built; all requests of a name go through the same middleware closure
+	verifc01.Run(t, verifc01.Gen([]verifc01.SiteSpec{spec}, true), func(named bool) verifc01.Env {
+		type inst struct {
+			mw  func(http.Handler) http.Handler
+			brk breaker.Breaker
+		}
+		insts := map[string]*inst{}
+		get := func(name string) *inst {
+			if in, ok := insts[name]; ok {
+				return in
+			}
+			mw := BreakerHandler(http.MethodGet, fmt.Sprintf("/c01/%d/%s", c01RestSeq.Add(1), name), metrics)
+			brk := breaker.VerifC01FindBreaker(*(*unsafe.Pointer)(unsafe.Pointer(&mw)), 4)
+			if brk == nil {
+				panic("verif c01: breaker not found in the closure of BreakerHandler")
+			}
+			insts[name] = &inst{mw: mw, brk: brk}
+			return insts[name]
 		}
 		return verifc01.Env{
-			Breaker: func(string) breaker.Breaker { return brk },
+			Breaker: func(name string) breaker.Breaker { return get(name).brk },
 			Invoke: func(c verifc01.Call, _ context.Context, onReq func()) string {
+				mw := get(c.Name).mw
 				code, err := strconv.Atoi(c.Class[1:])
 				if err != nil || c.Class[0] != 'h' {
 					panic("verif c01: bad rest class " + c.Class)
